@@ -28,3 +28,14 @@ run P08 C14 C20
 run P09 C19
 run P10 C19 C02
 run R1 C02 C12
+# second behavioural probe (S01-S10): all code areas
+run S01 C06 C07
+run S02 C08 C11 C02
+run S03 C03 C04
+run S04 C18 C19
+run S05 C15 C16 C05
+run S06 C05 C17 C19
+run S07 C14 C09
+run S08 C13 C12
+run S09 C20 C12
+run S10 C19 C02 C08
